@@ -127,8 +127,9 @@ class LockOracle(Observer):
             if op is None:
                 continue
             arrs = [r() for r in rec.arrs]
+            bases = [r() for r in rec.bases]
             reach = key in getattr(w, "reachable_ops", ())
-            live.append((key, rec, arrs, reach))
+            live.append((key, rec, arrs, reach, bases))
         for hk, a, orig, entered, kind in held:
             if kind.startswith("grad"):
                 continue
@@ -136,9 +137,14 @@ class LockOracle(Observer):
             must_lock = None
             referred = False
             referred_unreachable = None
-            for key, rec, arrs, reach in live:
+            for key, rec, arrs, reach, bases in live:
                 hit_direct = False
                 hit_any = False
+                for xb in bases:
+                    if xb is not None and (xb is a or (a.base is not None and a.base is xb)):
+                        hit_any = True
+                        if xb is a:
+                            hit_direct = True
                 for x in arrs:
                     if x is None:
                         continue
